@@ -30,6 +30,8 @@ CHECKS = {
          "seeded swarm over scripts drawn from the full Runtime/Extensions API alphabet including misuse, stalls, exits, crashes while parked and truncated bodies, over 2-5 faulty generations followed by healthy ones, with 25-75% lock-grant reordering and goroutine holds at sites drawn from the tree's own lock-site inventory; decides that the emulator neither crashes nor wedges, that every invocation is answered within the bound with an admissible body, and that service recovers; sampled"),
  "C08": ("exploration", "3 C08", "differential deterministic simulation: suffix after (random prefix + reset) versus the same suffix after a trivial prefix, two bubbles per run, normalised trace equality",
          "seeded search over prefixes (healthy, error, crash, timeout, init error, extension crash, oversize, explicit reset) with late exit notifications up to beyond the exit grace, kill latency, lock-grant reordering and a goroutine held at clearing/cancelling/exit-handling lock sites, followed by a suffix scenario; the oracle is equality of the complete normalised suffix trace with the one obtained after a trivial prefix on a second fresh instance; sampled; the zombie-API-request family is recorded as a known finding"),
+ "C11": ("exploration", "3 C11", "primitive-level deterministic simulation: the real gate / flow objects inside the bubble, tape-drawn operations released one lock acquisition at a time, held waiters; abstract counting-latch oracle after every operation",
+         "seeded search over operation sequences of length 8-40 (arrive, set-count, register, re-arm, cancel with/without error, clear, up to 3 concurrent waiters, deadline waiter and fake-clock ticks for the init flow) on a single gate and on the init / invoke flow objects, with lock-grant reordering and a waiter held before its (re-)check across 1-4 further operations; decides return values, no waiter parked while its barrier is open, no premature or wrong verdict, cancellation stickiness and fan-out of flow operations; sampled"),
  "C12": ("exploration", "3 C12 and appendix A.1", "full-stack deterministic simulation: scripted runtimes over the Runtime API alphabet interleaved with caller arrivals; reference-automaton oracle",
          "seeded search over call sequences of length 2-12 per generation (three generations per run) over next / response / error with current, stale and unknown ids / init error / restore calls / unknown routes / wrong methods, interleaved with caller arrivals, in plain and snapshot mode; every verdict is compared with the reference automaton written from the public Runtime API documentation, a refused call must leave the state unchanged; sampled sequences"),
  "C13": ("exploration", "3 C13 and appendix A.2", "full-stack deterministic simulation: scripted external and internal extensions over the Extensions API alphabet; reference-automaton and refusal-table oracle",
